@@ -526,6 +526,17 @@ func init() {
 		p := decPos(a[2])
 		return c04Check(newEngine(p.Size(), a[1]), a[0], p)
 	}
+	// c04mem <TableMem bytes> <depth> <pos>: the table budget as the caller states it, in BYTES (the `-table-mem` flag), down
+	// to budgets that do not pay for a single entry: GetMove answers a legal move
+	opTable["c04mem"] = func(s *Session, a []string) string {
+		p := decPos(a[2])
+		mem, _ := strconv.ParseInt(a[0], 10, 64)
+		m := ai.NewMinimax(ai.MinimaxConfig{Size: p.Size(), Depth: atoi(a[1]), TableMem: mem, Seed: 1}).GetMove(context.Background(), p)
+		if _, err := p.Move(m); err != nil {
+			return "illegal:" + encMove(m)
+		}
+		return "legal"
+	}
 	opTable["c04s"] = func(s *Session, a []string) string {
 		e := slotEngine(s, a[1])
 		if e == nil {
